@@ -87,7 +87,11 @@ def run(chk, pid, sources, make_cases, n_quick, n_thorough, rule, theorem_hint, 
             chk.known_finding(kf['key'], kf['text'])
             continue
         if reported < 5:
+            if rec.get('e2e_differs') and rec['py'][0] == 'ok' and rec['py'][1] == rec['lean']:
+                desc += (' [selector TEXT -> parser model -> matcher model disagrees while the matcher model run on the '
+                         'IR Python compiled agrees: the text is compiled to a different IR]')
             chk.violation(f'case{reported}', {'what': desc, 'case': case, 'py': rec['py'], 'model': rec['lean'],
+                                              'model_end_to_end': rec.get('lean_e2e'),
                                               'replay_with': f'bin/check {pid} --replay <this file>'},
                           concrete=is_violation)
         reported += 1
@@ -108,7 +112,7 @@ def replay(chk, path, pid):
     ok, _ = chk.build(['svdriver'])
     recs = matchcorr.run_cases([case])
     rec = recs[0]
-    print(json.dumps({'py': rec['py'], 'model': rec['lean'], 'agree': rec['agree']}, default=repr))
+    print(json.dumps({'py': rec['py'], 'model': rec['lean'], 'model_end_to_end': rec.get('lean_e2e'), 'agree': rec['agree']}, default=repr))
     if not rec['agree']:
         print(f'VIOLATION property={pid} replay={path}')
         return 1
